@@ -975,6 +975,8 @@ void exec_op(const Op &op, bool in_cb, int cb_slot) {
             c09_register(m, type, k1, type == M_SRC_TYPE_TASK ? 0 : k2, valid, rc, false, a.snap0);
             if (rc != 0 && (fl & M_SRC_AUTOFREE)) {
                 // refused: the user data stays ours (the library no longer touches it)
+                if (on("C04") && !R->a.is_live(ud))
+                    VIOL("C04", "C04:refused-registration-freed-userdata", "%s returned %d but released the auto-free user data passed to it: the caller still owns it and will use / free it", name, rc);
                 if (R->a.is_live(ud)) sk_free((void *)ud);
                 W->udptr2id.erase(ud);
             }
